@@ -76,6 +76,13 @@ def f_fromfunction(i, j, k=0.0):
     return (i * 10 + j) * 1.0 + k
 
 
+def SET(x, idx, v):
+    """y = copy of x; y[idx] = v (in-place assignment on a fresh collection over an identically named base)"""
+    y = x.copy() if isinstance(x, np.ndarray) else (x + 0)
+    y[idx] = v
+    return y
+
+
 def hot(dtype, shape, k=0):
     """data close to the overflow of the small integer types (sums / products wrap in the narrow accumulators)"""
     n = int(np.prod(shape))
@@ -101,6 +108,7 @@ class NS(P.Namespace):
         self.ns["H"] = self.H
         self.ns["D"] = f_const
         self.ns["hot"] = hot
+        self.ns["SET"] = SET
 
     def H(self, dtype, shape, chunks, k=0):
         d = hot(dtype, tuple(shape), k)
@@ -122,9 +130,16 @@ def canon(v, depth=0):
             return ("rec", v.shape, tuple((n, canon(np.asarray(v[n]), depth + 1)) for n in v.dtype.names))
         if v.dtype.kind == "O":
             return ("nd", v.shape, "O", repr(v.tolist()))
+        if v.dtype.kind in "fc" and v.size and np.isnan(v).any():  # sign / payload of a NaN is not compared (dask.tokenize normalises NaN literals: trusted base)
+            v = v.copy()
+            if v.dtype.kind == "c":
+                v.real[np.isnan(v.real)] = np.nan
+                v.imag[np.isnan(v.imag)] = np.nan
+            else:
+                v[np.isnan(v)] = np.nan
         return ("nd", v.shape, v.dtype.str, np.ascontiguousarray(v).tobytes())
     if isinstance(v, np.generic):
-        return ("sc", v.dtype.str, v.tobytes())
+        return canon(np.asarray(v), depth + 1)
     if isinstance(v, (tuple, list)):
         return (type(v).__name__, tuple(canon(e, depth + 1) for e in v))
     if isinstance(v, dict):
@@ -278,6 +293,21 @@ def key_families():
         {"i0": ["[4, 0, 2, 3]", "[0, 4, 5, 2]", "slice(1, 5)", "[True, False, True, True, False, True]"], "i1": ["[0, 3]", "[3, 1]", "slice(0, 2)", "slice(None, None, -1)"], "i2": ["slice(1, 3)", "[1, 0]", "slice(None, None, 2)", "1"]})
     add("vindex", "x.vindex[i0, i1]", {"x": "A('f8',(6,4),(3,2))", "i0": "[4, 0, 2]", "i1": "[3, 0, 1]"},
         {"i0": ["[4, 0, 3]", "[0, 4, 2]", "[2, 2, 2]"], "i1": ["[0, 3, 1]", "[3, 0, 2]"], "x": ["A('f8',(6,4),(2,2))"]})
+    # ---- in-place assignment: keys selecting the same elements in another order / spelling, values differing in order / dtype / broadcast
+    M6 = "np.array([False, False, True, True, True, True, True, True, False, False])"
+    add("setitem.1d", "SET(x, idx, v)", {"x": "A('f8',(10,),(4,))", "idx": "slice(2, 8)", "v": "R('f8',(6,),1)"},
+        {"idx": ["slice(7, 1, -1)", "[2, 3, 4, 5, 6, 7]", "[7, 6, 5, 4, 3, 2]", "slice(-8, -2)", "slice(-3, -9, -1)", "slice(2, 8, 1)", "np.array([2, 3, 4, 5, 6, 7])", "np.array([7, 6, 5, 4, 3, 2])", M6, "slice(3, 9)", "[2, 4, 3, 5, 6, 7]"],
+         "v": ["R('f8',(6,),1)[::-1].copy()", "R('f8',(6,),2)", "R('i8',(6,),1)", "R('f4',(6,),1)", "R('f8',(1,),1)", "R('f8',(6,),1).tolist()", "A('f8',(6,),(3,),1)", "A('f8',(6,),(6,),1)", "A('f8',(6,),(3,),1)[::-1]"],
+         "x": ["A('f8',(10,),(5,))", "A('f8',(10,),(4,),1)"]}, core=True)
+    add("setitem.int", "SET(x, idx, v)", {"x": "A('f8',(10,),(4,))", "idx": "3", "v": "50.0"},
+        {"idx": ["-7", "[3]", "slice(3, 4)", "np.int64(3)", "(3,)", "-3", "7", "[3, 3]", "Ellipsis"], "v": ["50", "np.float32(50)", "[50.0]", "51.0", "True"]})
+    add("setitem.2d", "SET(x, idx, v)", {"x": "A('f8',(6,4),(3,2))", "idx": "(slice(1, 5), slice(None))", "v": "R('f8',(4,4),1)"},
+        {"idx": ["(slice(4, 0, -1), slice(None))", "(slice(1, 5),)", "slice(1, 5)", "([1, 2, 3, 4],)", "([4, 3, 2, 1],)", "(slice(1, 5), slice(None, None, -1))", "(slice(4, 0, -1), slice(None, None, -1))", "(slice(-5, -1),)",
+                 "(slice(1, 5), [0, 1, 2, 3])", "(slice(1, 5), [3, 2, 1, 0])", "(np.array([False, True, True, True, True, False]),)", "(slice(2, 6),)"],
+         "v": ["R('f8',(4,4),1)[::-1].copy()", "R('f8',(4,4),1)[:, ::-1].copy()", "R('f8',(4,4),1).T.copy()", "R('f8',(1,4),1)", "R('f8',(4,1),1)", "R('f8',(4,),1)", "R('i8',(4,4),1)", "A('f8',(4,4),(2,2),1)", "A('f8',(4,4),(2,2),1)[::-1]"],
+         "x": ["A('f8',(6,4),(2,4))"]}, core=True)
+    add("setitem.mask", "SET(x, x > thr if m is None else m, v)", {"x": "A('f8',(10,),(4,))", "thr": "0", "m": "None", "v": "9.0"},
+        {"thr": ["1", "-1", "0.0"], "m": ["A('bool',(10,),(4,))", "A('bool',(10,),(4,),1)", "R('bool',(10,),0)", "R('bool',(10,),1)"], "v": ["9", "-9.0", "A('f8',(10,),(4,),2)"]})
     # ---- reshape
     add("reshape", "da.reshape(x, shape, merge_chunks=merge_chunks, limit=limit)",
         {"x": "A('f8',(6,4),(2,4))", "shape": "(24,)", "merge_chunks": "True", "limit": "None"},
@@ -303,7 +333,7 @@ def key_families():
         {"values": ["[1, 2, 4]", "(1, 2, 3)", "[3, 2, 1]", "[1.0, 2.0, 3.0]"], "k": ["1", "0.0", "True"], "n": ["3"], "dtype": ["'f4'"]})
     add("io.fromfunction", "da.fromfunction(f_fromfunction, chunks=chunks, shape=shape, dtype=dtype, k=k)",
         {"shape": "(4, 4)", "chunks": "(2, 2)", "dtype": "'f8'", "k": "0.0"}, {"shape": ["(4, 5)"], "chunks": ["(4, 2)", "(2, 4)"], "dtype": ["'f4'"], "k": ["1.0", "1", "True"]})
-    add("io.to_delayed-roundtrip", "da.from_delayed(getattr(da, fn)(x, axis=0, dtype=dtype).to_delayed(optimize_graph=og)[blk], shape=(4,), dtype='f8')",
+    add("io.to_delayed-roundtrip", "da.from_delayed(getattr(da, fn)(x, axis=0, dtype=dtype).astype('f8').to_delayed(optimize_graph=og)[blk], shape=(4,), dtype='f8')",
         {"x": "H('u1',(12,),(4,))", "fn": "'cumsum'", "dtype": "None", "og": "True", "blk": "1"}, {"dtype": ["'u1'", "'f4'"], "og": ["False"], "blk": ["2", "0"], "fn": ["'cumprod'"]})
     # ---- statistics / contractions / misc layers with internal keys
     add("histogram", "da.histogram(x, bins=bins, range=rng_, weights=weights, density=density)[0]",
@@ -411,6 +441,47 @@ class KeyGroup:
         finally:
             w.__exit__(None, None, None)
 
+    # -- call level: one collection name for two calls => one array (each call evaluated from EMPTY registries)
+    def names(self):
+        by = collections.defaultdict(list)
+        for i, x in self.built:
+            try:
+                by[x.name].append(i)
+            except Exception:
+                pass
+        for nm, idx in by.items():
+            if len(idx) < 2:
+                continue
+            vals = {}
+            for i in idx[:6]:
+                spec = self.mems[i][2]
+                try:
+                    w = quiet()
+                    try:
+                        vals[i] = self.reg.isolated(lambda spec=spec: compute_one(self.builder(spec)))
+                    finally:
+                        w.__exit__(None, None, None)
+                except Exception:
+                    self.stats["isolated-compute-raised"] += 1
+            self.stats["same-name-calls"] += len(vals)
+            ids = list(vals)
+            for i, j in itertools.combinations(ids, 2):
+                self.ctx.count(("keys-same-name", self.fam, self.diff(i, j)))
+                if same(vals[i], vals[j]):
+                    continue
+                # reproducible? (each call once more, from empty registries)
+                try:
+                    again = [self.reg.isolated(lambda spec=self.mems[k][2]: compute_one(self.builder(spec))) for k in (i, j)]
+                except Exception:
+                    continue
+                if not (same(again[0], vals[i]) and same(again[1], vals[j])):
+                    self.stats["isolated-compute-not-reproducible"] += 1
+                    continue
+                self.fail(f"keys:one-name-two-arrays:{self.fam}:{self.diff(i, j)}", i, j,
+                          f"{self.fam}: two calls differing in {self.diff(i, j)} get ONE collection name {nm!r} but, each built and computed from empty registries, they are two arrays: "
+                          f"{short(vals[i])} vs {short(vals[j])}", name=nm, value_a=short(vals[i]), value_b=short(vals[j]))
+                return
+
     # -- key level
     def keys(self):
         owners = collections.defaultdict(list)
@@ -469,6 +540,12 @@ class KeyGroup:
             if not self.confirm_key(k, o0, o1):
                 self.stats["key-conflict-not-reproducible"] += 1
                 continue
+            if not self.confirm_isolated(k, o0, o1):
+                # only with the history of this process: does not replay from the two calls alone, recorded but not reported
+                self.stats["key-conflict-only-with-history"] += 1
+                self.ctx.notes.setdefault("shared_keys_history_dependent", []).append(
+                    {"family": self.fam, "key": repr(k), "spec_a": self.mems[o0[0]][2], "spec_b": self.mems[o1[0]][2], "forms": [o0[1], o1[1]]})
+                continue
             r0 = run_keys(self.graphs[o0], [k])[0]
             r1 = run_keys(self.graphs[o1], [k])[0]
             i, j = o0[0], o1[0]
@@ -485,6 +562,28 @@ class KeyGroup:
         except Exception:
             return False
         return a[0] == a[1] and b[0] == b[1] and a[0] != b[0]
+
+    def confirm_isolated(self, k, o0, o1):
+        """the conflict must follow from the two calls alone: both rebuilt from EMPTY registries (what a replay does)"""
+
+        def go():
+            out = []
+            for o in (o0, o1):
+                x = self.builder(self.mems[o[0]][2])
+                if isinstance(x, (tuple, list)):
+                    x = x[0]
+                g = graphs_of(x).get(o[1], {})
+                out.append(canon(run_keys(g, [k])[0]) if k in g else None)
+            return out
+
+        w = quiet()
+        try:
+            a, b = self.reg.isolated(go)
+        except Exception:
+            return False
+        finally:
+            w.__exit__(None, None, None)
+        return a is not None and b is not None and a != b
 
     # -- merged computations
     def alone(self, i, x):
@@ -579,7 +678,9 @@ def run_key_family(ctx, reg, stats, fam, rng, merged_budget, replay_pair=None):
     g = KeyGroup(ctx, reg, stats, fam["name"], builder, mems, case_base)
     g.build()
     if len(g.built) >= 2:
-        g.keys()
+        g.names()
+        if not g.failed:
+            g.keys()
         if not g.failed:
             idx = [i for i, _ in g.built]
             pairs = [(idx[0], j) for j in idx[1:]]
